@@ -174,6 +174,83 @@ def colfn_scenarios(w: ColExprWorld):
     return out
 
 
+POISON_SRC = '''
+class PoisonExpr(ColExpr):
+    def __init__(self):
+        self._dtype = None
+        self._ftype = None
+
+    def dtype(self):
+        raise DataTypeError("poisoned child")
+
+    def ftype(self, *, agg_is_window=None):
+        return Ftype.ELEMENT_WISE
+
+    def iter_children(self):
+        return []
+
+    def map_children(self, g):
+        pass
+'''
+
+
+def eager_scenarios(w: ColExprWorld):
+    """eager type checking reaches every child: `<node>.dtype()` of a composite node one of whose children has a type error
+    (a stub child whose own dtype() raises DataTypeError) raises - whichever slot the child sits in (condition / value / default
+    of a case expression, positional argument / partition_by= / arrange= of a function, operand of a cast)."""
+    import ast as _ast
+
+    from .interp import Native
+
+    p = w.p
+    if "PoisonExpr" not in w.env:
+        for c in _ast.parse(POISON_SRC).body:
+            w.env[c.name] = p.make_class(c, w.env)
+    out = []
+
+    def poison():
+        return p.call(w.env["PoisonExpr"], [])
+
+    def good(dt=None, kind="ew"):
+        return w.child(kind, dt or w.I)
+
+    def op(ftype):
+        o = Obj.__new__(Obj)
+        o.cls, o.attrs = w.env["Col"], {"name": "op", "ftype": ftype, "return_type": Native(lambda arg_types: w.I, "op.return_type")}
+        return o
+
+    def fn(args, **kw):
+        return p.new("tree.col_expr", "ColFn", op=op(w.WIN), args=list(args), context_kwargs={k: list(v) for k, v in kw.items()}, _dtype=None, _ftype=None, _fn_id="fn")
+
+    def order(e):
+        return p.new("tree.col_expr", "Order", order_by=e, descending=False, nulls_last=None)
+
+    cases = [
+        ("CaseExpr", "the condition of a case", lambda: w.case([(poison(), good())], good())),
+        ("CaseExpr", "the condition of the second case", lambda: w.case([(good(w.B), good()), (poison(), good())], None)),
+        ("CaseExpr", "a value of a case", lambda: w.case([(good(w.B), poison())], good())),
+        ("CaseExpr", "the value of the second case", lambda: w.case([(good(w.B), good()), (good(w.B), poison())], None)),
+        ("CaseExpr", "the default value", lambda: w.case([(good(w.B), good())], poison())),
+        ("ColFn", "the first positional argument", lambda: fn([poison(), good()])),
+        ("ColFn", "a later positional argument", lambda: fn([good(), poison()])),
+        ("ColFn", "a partition_by= argument", lambda: fn([good()], partition_by=[good(), poison()])),
+        ("ColFn", "an arrange= argument", lambda: fn([good()], arrange=[order(good()), order(poison())])),
+    ]
+    if "Cast" in w.env:
+        cases.append(("Cast", "the operand of a cast", lambda: p.new("tree.col_expr", "Cast", val=poison(), target_type=w.I, strict=True, _dtype=None, _ftype=None)))
+    for cls_, slot, build in cases:
+        try:
+            node = build()
+        except PyRaise as e:
+            out.append(("eager.dtype", f"{cls_} with a type error in {slot}: built", False, f"building the {cls_} stub raises {e.name}: {e.msg}"))
+            continue
+        r = w.run(node, "dtype")
+        out.append(("eager.dtype", f"{cls_}.dtype() with a type error in {slot} -> DataTypeError", r == ("raise", "DataTypeError"),
+                    f"{cls_}.dtype() gives {r} although {slot} has a type error: a type error nested there is not raised when the expression is built / "
+                    "preprocessed (the verb call succeeds and the error surfaces at export or never)"))  # fmt: skip
+    return out
+
+
 def marker_scenarios(w: ColExprWorld):
     """wrap_literals: ordering markers are accepted only at the root of an expression"""
     out = []
@@ -257,7 +334,7 @@ def scenarios(chk, m):
         try:
             w = ColExprWorld(chk.repo, m_types_env(m))
             res = {}
-            for f in (case_scenarios, colfn_scenarios, marker_scenarios):
+            for f in (case_scenarios, colfn_scenarios, marker_scenarios, eager_scenarios):
                 for rule, desc, ok, det in f(w):
                     res.setdefault(rule, []).append((desc, ok, det))
             _cache[k] = res
@@ -275,7 +352,7 @@ def report(chk, m, rule, groups, floor=None):
         return False
     n = 0
     for g in groups:
-        anchor = mod.func(g) if "." in g else mod.func(g)
+        anchor = mod.func({"eager.dtype": "ColFn.dtype"}.get(g, g))
         for desc, ok, det in res.get(g, []):
             n += 1
             chk.ob(rule, mod, anchor, f"{g}: {desc}", ok, det)
